@@ -10,6 +10,7 @@ data and every operation sequence (no bound on lengths).
 -/
 import EdzedModel.Repeat
 import EdzedModel.Gen.TranslatedRepeat
+import EdzedModel.RepeatCtor
 import EdzedProofs.Repeat
 
 namespace Edzed.Repeat
@@ -541,3 +542,420 @@ theorem translated_idle_never_times_out (count : Option Nat) (r : Nat) (q : Bool
   unfold maintaskIter; simp [maintaskInit]
 
 end Edzed.Repeat.TrTie
+
+/-! ### tie by translation: constructors and task life-cycle (`tools/py2lean_ctor.py`)
+
+`Gen.TrC.*` are the programs translated from the current source of `Event.__init__ / typecheck / dest`,
+`_to_tuple`, `Repeat.__init__ / start / init_regular`, `AddonAsync.__init__ / _task_monitor /
+_create_monitored_task`, `AddonMainTask.__init__ / start / stop_async`; `RepeatCtor.*` is the hand-written model. -/
+
+namespace Edzed.TrTie
+
+open Edzed.Gen.TrC Edzed.RepeatCtor
+
+/-- an `Except` as a program -/
+def ctorOfExcept {σ α : Type} (x : Except Exc α) : M σ α := fun s => (x, s)
+
+/-! #### Event.typecheck / Event.__init__ / Event.dest / _to_tuple -/
+
+theorem translated_ctor_typecheck_is_model {σ : Type} (etype : ETy) :
+    (eventTypecheck etype : M σ Unit) = ctorOfExcept (typecheck etype) := by
+  funext s
+  cases etype with
+  | str x => by_cases h : x = "" <;> simp [eventTypecheck, typecheck, ctorOfExcept, ETy.isStr, ETy.truthy, raise, M.pure, h]
+  | other t => simp [eventTypecheck, typecheck, ctorOfExcept, ETy.isStr, ETy.isEventType, raise]
+  | _ => simp [eventTypecheck, typecheck, ctorOfExcept, ETy.isStr, ETy.isEventType, M.pure]
+
+/-- the primitives of `Event.__init__`: the Repeat constructor is the model's `repeatNew`, the filters are
+    accepted or not, `resolve_name` is recorded -/
+def ctorEvPrims (filtersOk : Bool) : EvPrims where
+  mkRepeat dest etype interval count := fun s =>
+    match repeatNew dest etype interval count with
+    | .ok rc => (.ok (.repeatOf rc.dest rc.etype rc.interval rc.count), s)
+    | .error e => (.error e, s)
+  efilterTuple := if filtersOk then M.pure () else raise "TypeError"
+  resolveDest := modifyS fun o => { o with resolveCalled := true }
+
+/-- `Event.__init__` computes the model's `eventNew`: on success `_dest` / `_etype` are what the model says, the
+    filters are stored and the name resolution is requested; otherwise the same exception is raised -/
+theorem translated_ctor_event_init_is_model (dest : Dest) (etype : ETy) (repeatArg : Option Val)
+    (count : Option Int) (filtersOk : Bool) :
+    (eventInit (ctorEvPrims filtersOk) dest etype repeatArg count {}).1 =
+        (eventNew dest etype repeatArg count filtersOk).map (fun _ => ())
+    ∧ ∀ ec, eventNew dest etype repeatArg count filtersOk = .ok ec →
+        (eventInit (ctorEvPrims filtersOk) dest etype repeatArg count {}).2 =
+          { dest := some ec.dest, etype := some ec.etype, filtersSet := true, resolveCalled := true } := by
+  unfold eventInit eventNew
+  rw [translated_ctor_typecheck_is_model]
+  cases repeatArg with
+  | none =>
+    cases count with
+    | some n => simp [raise, Except.map]
+    | none =>
+      cases ht : typecheck etype <;> cases filtersOk <;>
+        simp [M.bind, M.pure, raise, ctorOfExcept, ht, ctorEvPrims, modifyS, Except.map]
+  | some r =>
+    cases hr : repeatNew dest etype r count with
+    | error e => simp [M.bind, ctorEvPrims, hr, Except.map]
+    | ok rc =>
+      cases ht : typecheck etype <;> cases filtersOk <;>
+        simp [M.bind, M.pure, raise, ctorOfExcept, ht, hr, ctorEvPrims, modifyS, Except.map]
+
+theorem translated_ctor_event_dest_is_model {σ : Type} (dest : Dest) :
+    (Gen.TrC.eventDest dest : M σ Dest) = ctorOfExcept (RepeatCtor.eventDest dest) := by
+  funext s
+  cases dest <;> simp [Gen.TrC.eventDest, RepeatCtor.eventDest, ctorOfExcept, Dest.isName, raise, M.pure]
+
+theorem ctor_forEach_ofExcept {σ ι : Type} (validator : ι → Except Exc Unit) (xs : List ι) :
+    (forEach xs (fun x => M.bind (ctorOfExcept (validator x)) fun _ => M.pure ()) : M σ Unit) =
+      ctorOfExcept (validateAll validator xs) := by
+  induction xs with
+  | nil => rfl
+  | cons x xs ih =>
+    funext s
+    simp only [forEach, validateAll, M.bind, ctorOfExcept, M.pure]
+    cases hv : validator x with
+    | error e => simp
+    | ok u => simp; rw [ih]; rfl
+
+theorem translated_ctor_to_tuple_is_model {σ ι : Type} (args : ArgsT ι) (validator : ι → Except Exc Unit) :
+    (Gen.TrC.toTuple args (fun x => ctorOfExcept (validator x)) : M σ (List ι)) =
+      ctorOfExcept (RepeatCtor.toTuple args validator) := by
+  funext s
+  cases args with
+  | none => simp [Gen.TrC.toTuple, RepeatCtor.toTuple, ArgsT.isNone, ctorOfExcept, M.pure]
+  | tuple l =>
+    simp only [Gen.TrC.toTuple, RepeatCtor.toTuple, ArgsT.isNone, ArgsT.isTuple, ArgsT.items, Bool.false_eq_true,
+      if_false, if_true, ctor_forEach_ofExcept]
+    cases validateAll validator l <;> simp [M.bind, ctorOfExcept, M.pure]
+  | multiple l =>
+    simp only [Gen.TrC.toTuple, RepeatCtor.toTuple, ArgsT.isNone, ArgsT.isTuple, ArgsT.isMultiple, ArgsT.items,
+      Bool.false_eq_true, if_false, if_true, ctor_forEach_ofExcept]
+    cases validateAll validator l <;> simp [M.bind, ctorOfExcept, M.pure]
+  | single x =>
+    simp only [Gen.TrC.toTuple, RepeatCtor.toTuple, ArgsT.isNone, ArgsT.isTuple, ArgsT.isMultiple, ArgsT.items,
+      Bool.false_eq_true, if_false, ctor_forEach_ofExcept]
+    cases validateAll validator [x] <;> simp [M.bind, ctorOfExcept, M.pure]
+
+/-! #### Repeat.__init__ / start / init_regular -/
+
+/-- the primitives of `Repeat`: `block.Event(dest, etype)` is the model's plain event constructor,
+    `utils.time_period` the model of C19, the base classes and `set_output` are recorded -/
+def ctorRPrims : RPrims where
+  mkEvent dest etype := fun s =>
+    match eventNew dest etype none none true with
+    | .ok ec => (.ok (ec.dest, ec.etype), s)
+    | .error e => (.error e, s)
+  timePeriod v := ctorOfExcept (timePeriod v)
+  superInit := modifyS fun o => { o with log := o.log ++ ["super().__init__"] }
+  superStart := modifyS fun o => { o with log := o.log ++ ["super().start"] }
+  setOutput n := modifyS fun o => { o with log := o.log ++ [s!"set_output({n})"] }
+
+/-- `Repeat.__init__` performs exactly the model's checks, in the model's order, and stores the model's values:
+    the repeated event goes to the ORIGINAL destination with the original type, the interval is
+    `time_period(interval)`, the count as given, `_warning_logged = False`; the base class is initialised last -/
+theorem translated_ctor_repeat_init_is_model (dest : Dest) (etype : ETy) (interval : Val) (count : Option Int) :
+    (repeatInit ctorRPrims dest etype interval count {}).1 = (repeatNew dest etype interval count).map (fun _ => ())
+    ∧ ∀ rc, repeatNew dest etype interval count = .ok rc →
+        (repeatInit ctorRPrims dest etype interval count {}).2 =
+          { repeated := some (rc.dest, rc.etype), interval := some rc.interval, count := rc.count,
+            warningLogged := some false, queue := none, log := ["super().__init__"] }
+        ∧ rc.dest = dest ∧ rc.etype = etype ∧ rc.count = count := by
+  unfold repeatInit repeatNew
+  cases hc : etype.isEventCond
+  case true => simp [raise, Except.map]
+  case false =>
+    simp only [Bool.false_eq_true, if_false]
+    cases ht : typecheck etype with
+    | error e => simp [M.bind, ctorRPrims, eventNew, ht, Except.map]
+    | ok u =>
+      cases hp : RepeatCtor.timePeriod interval with
+      | error e => simp [M.bind, ctorRPrims, eventNew, ht, hp, ctorOfExcept, modifyS, Except.map]
+      | ok r =>
+        cases r with
+        | none => simp [M.bind, ctorRPrims, eventNew, ht, hp, ctorOfExcept, modifyS, getS, raise, Except.map]
+        | some iv =>
+          by_cases hiv : iv ≤ 0
+          · simp [M.bind, ctorRPrims, eventNew, ht, hp, ctorOfExcept, modifyS, getS, raise, hiv, Except.map]
+          · cases count with
+            | none =>
+              simp [M.bind, M.pure, ctorRPrims, eventNew, ht, hp, ctorOfExcept, modifyS, getS, raise, hiv, Except.map]
+            | some n =>
+              by_cases hn : n < 0 <;>
+                simp [M.bind, M.pure, ctorRPrims, eventNew, ht, hp, ctorOfExcept, modifyS, getS, raise, hiv, hn, Except.map]
+
+/-- `Repeat.start`: the base classes first (the main task is created there but cannot run before the
+    caller yields), then the FIFO queue; `Repeat.init_regular`: the output starts as 0 -/
+theorem translated_ctor_repeat_start_is_model (o : RepeatObj) :
+    repeatStart ctorRPrims o = (.ok (), { o with queue := some .fifo, log := o.log ++ ["super().start"] })
+    ∧ repeatInitRegular ctorRPrims o = (.ok (), { o with log := o.log ++ [s!"set_output({0})"] })
+    ∧ ({} : Repeat.State).out = 0 := by
+  refine ⟨?_, ?_, rfl⟩ <;> simp [repeatStart, repeatInitRegular, ctorRPrims, M.bind, M.pure, modifyS]
+
+/-! #### AddonAsync.__init__ -/
+
+def ctorAPrims (hasInit hasStop : Bool) (awaitMtask awaitCoro : M AsyncObj Unit) : APrims where
+  hasInitAsync := hasInit
+  hasStopAsync := hasStop
+  timePeriod v := ctorOfExcept (RepeatCtor.timePeriod v)
+  superInit := modifyS fun o => { o with log := o.log ++ ["super().__init__"] }
+  superStart := modifyS fun o => { o with log := o.log ++ ["super().start"] }
+  cancelMtask := modifyS fun o => { o with log := o.log ++ ["cancel"] }
+  awaitMtask := awaitMtask
+  superStopAsync := modifyS fun o => { o with log := o.log ++ ["super().stop_async"] }
+  awaitCoro := awaitCoro
+  addNote _ := M.pure ()
+  abort e := modifyS fun o => { o with log := o.log ++ ["abort " ++ e] }
+
+/-- how an awaited coroutine ends, as a program -/
+def ctorEndOf {σ : Type} : CoroEnd → M σ Unit
+  | .returned => M.pure ()
+  | .raised e => raise e
+
+theorem ctor_popKw_eq (key : String) (o : AsyncObj) :
+    Gen.TrC.popKw key o = (.ok (RepeatCtor.popKw o.kwargs key).1, { o with kwargs := (RepeatCtor.popKw o.kwargs key).2 }) := rfl
+
+theorem ctor_hasKw_eq (o : AsyncObj) (k : String) : o.hasKw k = RepeatCtor.hasKw o.kwargs k := rfl
+
+/-- the defaults of the module: 10 s each (as `Gen.defaultInitTimeoutUs` / `defaultStopTimeoutUs` of the extractor) -/
+theorem translated_ctor_default_timeouts :
+    defaultInitTimeout = 10 ∧ defaultStopTimeout = 10
+    ∧ defaultInitTimeout * 1000000 = (Gen.defaultInitTimeoutUs : Rat)
+    ∧ defaultStopTimeout * 1000000 = (Gen.defaultStopTimeoutUs : Rat) := by
+  refine ⟨rfl, rfl, ?_, ?_⟩ <;> decide +kernel
+
+/-- `AddonAsync.__init__` computes the model's `asyncInit` with the defaults of the module
+    (`DEFAULT_INIT_TIMEOUT`, `DEFAULT_STOP_TIMEOUT`, regenerated: 10 s); the keyword arguments it does not
+    consume are the ones the next `__init__` sees -/
+theorem translated_ctor_async_init_is_model (hasInit hasStop : Bool) (kwargs : List (String × Val))
+    (aw ac : M AsyncObj Unit) :
+    (addonAsyncInit (ctorAPrims hasInit hasStop aw ac) { kwargs := kwargs }).1 =
+        (asyncInit hasInit hasStop defaultInitTimeout defaultStopTimeout kwargs).map (fun _ => ())
+    ∧ ∀ t, asyncInit hasInit hasStop defaultInitTimeout defaultStopTimeout kwargs = .ok t →
+        (addonAsyncInit (ctorAPrims hasInit hasStop aw ac) { kwargs := kwargs }).2 =
+          { kwargs := t.rest, initTimeout := t.init, stopTimeout := t.stop, mtask := none,
+            log := ["super().__init__"] } := by
+  unfold addonAsyncInit asyncInit oneTimeout
+  cases hasInit <;> cases hasStop <;> simp only [ctorAPrims, Bool.false_eq_true, if_false, if_true]
+  · cases h1 : RepeatCtor.hasKw kwargs "init_timeout" <;> cases h2 : RepeatCtor.hasKw kwargs "stop_timeout" <;>
+      simp [M.bind, getS, modifyS, raise, M.pure, ctor_popKw_eq, ctor_hasKw_eq, TrTie.ctorOfExcept, h1, h2, withDefault, Except.map]
+  · cases h1 : RepeatCtor.hasKw kwargs "init_timeout"
+    · cases hp : RepeatCtor.timePeriod (RepeatCtor.popKw kwargs "stop_timeout").1 with
+      | error e => simp [M.bind, getS, modifyS, raise, M.pure, ctor_popKw_eq, ctor_hasKw_eq, TrTie.ctorOfExcept, h1, hp, Except.map]
+      | ok r => cases r <;>
+          simp [M.bind, getS, modifyS, raise, M.pure, ctor_popKw_eq, ctor_hasKw_eq, TrTie.ctorOfExcept, h1, hp, withDefault, Except.map]
+    · simp [M.bind, getS, modifyS, raise, M.pure, ctor_popKw_eq, ctor_hasKw_eq, TrTie.ctorOfExcept, h1, Except.map]
+  · cases hp : RepeatCtor.timePeriod (RepeatCtor.popKw kwargs "init_timeout").1 with
+    | error e => simp [M.bind, getS, modifyS, raise, M.pure, ctor_popKw_eq, ctor_hasKw_eq, TrTie.ctorOfExcept, hp, Except.map]
+    | ok r =>
+      cases h2 : RepeatCtor.hasKw (RepeatCtor.popKw kwargs "init_timeout").2 "stop_timeout" <;> cases r <;>
+        simp [M.bind, getS, modifyS, raise, M.pure, ctor_popKw_eq, ctor_hasKw_eq, TrTie.ctorOfExcept, hp, h2, withDefault, Except.map]
+  · cases hp : RepeatCtor.timePeriod (RepeatCtor.popKw kwargs "init_timeout").1 with
+    | error e => simp [M.bind, getS, modifyS, raise, M.pure, ctor_popKw_eq, ctor_hasKw_eq, TrTie.ctorOfExcept, hp, Except.map]
+    | ok r =>
+      cases hp2 : RepeatCtor.timePeriod
+          (RepeatCtor.popKw (RepeatCtor.popKw kwargs "init_timeout").2 "stop_timeout").1 with
+      | error e => simp [M.bind, getS, modifyS, raise, M.pure, ctor_popKw_eq, ctor_hasKw_eq, TrTie.ctorOfExcept, hp, hp2, Except.map]
+      | ok r2 => cases r <;> cases r2 <;>
+          simp [M.bind, getS, modifyS, raise, M.pure, ctor_popKw_eq, ctor_hasKw_eq, TrTie.ctorOfExcept, hp, hp2, withDefault, Except.map]
+
+/-! #### the task monitor, the main task -/
+
+/-- `AddonAsync._task_monitor` IS the model's `monitor`: the call ends as the model says and `circuit.abort(err)`
+    is called exactly for the error the model names (after `add_note`) -/
+theorem translated_monitor_task_monitor_is_model (hi hs isService : Bool) (aw : M AsyncObj Unit) (e : CoroEnd)
+    (o : AsyncObj) :
+    taskMonitor (ctorAPrims hi hs aw (ctorEndOf e)) isService o =
+      ((monitor isService e).result,
+       { o with log := o.log ++ (match (monitor isService e).aborted with
+                                 | some x => ["abort " ++ x]
+                                 | none => []) }) := by
+  unfold taskMonitor monitor
+  cases e with
+  | returned =>
+    cases isService <;>
+      simp [ctorAPrims, ctorEndOf, M.bind, M.pure, tryExcept, raise, modifyS, excIsA]
+  | raised x =>
+    by_cases hx : excIsA x "Exception" = true
+    · simp [ctorAPrims, ctorEndOf, M.bind, M.pure, tryExcept, raise, modifyS, hx]
+    · have hx' : excIsA x "Exception" = false := by simpa using hx
+      simp [ctorAPrims, ctorEndOf, M.bind, M.pure, tryExcept, raise, modifyS, hx']
+
+/-- `_create_monitored_task(coro, is_service=False)` wraps the coroutine in the monitor with the flag as given -/
+theorem translated_monitor_create_task_is_model (coro : Coro) (isService : Bool) (o : AsyncObj) :
+    createMonitoredTask coro isService o = (.ok (coro, isService), o)
+    ∧ createMonitoredTaskDefaultIsService = false ∧ taskMonitorDefaultIsService = false := by
+  simp [createMonitoredTask, M.pure, createMonitoredTaskDefaultIsService, taskMonitorDefaultIsService]
+
+/-- `AddonMainTask.__init__` clears `_mtask` before the base classes run; `start` starts the base classes, then
+    creates the monitored task of `_maintask()` AS A SERVICE; a second `start` fails the assertion -/
+theorem translated_ctor_main_task_start_is_model (hi hs : Bool) (aw ac : M AsyncObj Unit) (o : AsyncObj) :
+    mainTaskInit (ctorAPrims hi hs aw ac) o =
+        (.ok (), { o with mtask := none, log := o.log ++ ["super().__init__"] })
+    ∧ (o.mtask = none → mainTaskStart (ctorAPrims hi hs aw ac) o =
+        (.ok (), { o with mtask := some (.maintask, true), log := o.log ++ ["super().start"] }))
+    ∧ (∀ t, o.mtask = some t → mainTaskStart (ctorAPrims hi hs aw ac) o =
+        (.error "AssertionError", { o with log := o.log ++ ["super().start"] })) := by
+  refine ⟨?_, ?_, ?_⟩
+  · simp [mainTaskInit, ctorAPrims, M.bind, M.pure, modifyS]
+  · intro h
+    simp [mainTaskStart, ctorAPrims, M.bind, M.pure, modifyS, getS, assertM, createMonitoredTask, h]
+  · intro t h
+    simp [mainTaskStart, ctorAPrims, M.bind, M.pure, modifyS, getS, assertM, raise, h]
+
+/-- `AddonMainTask.stop_async` IS the model's `stopAsync`: the task is cancelled and awaited; its
+    CancelledError is swallowed; `_mtask` is cleared in every case (`finally`); another exception of the task
+    propagates and the next `stop_async` in the MRO is then not awaited -/
+theorem translated_monitor_stop_async_is_model (hi hs : Bool) (ac : M AsyncObj Unit) (e : CoroEnd) (o : AsyncObj) :
+    mainTaskStopAsync (ctorAPrims hi hs (ctorEndOf e) ac) o =
+      ((stopAsync o.mtask.isSome e).result,
+       { o with
+           mtask := if (stopAsync o.mtask.isSome e).mtaskCleared then none else o.mtask
+           log := o.log ++ (if (stopAsync o.mtask.isSome e).cancelled then ["cancel"] else [])
+                        ++ (if (stopAsync o.mtask.isSome e).superAwaited then ["super().stop_async"] else []) }) := by
+  unfold mainTaskStopAsync stopAsync
+  cases hm : o.mtask with
+  | none =>
+    cases o
+    simp_all [M.bind, getS, assertM, raise]
+  | some t =>
+    cases e with
+    | returned =>
+      simp [ctorAPrims, ctorEndOf, M.bind, M.pure, getS, assertM, modifyS, tryExcept, Gen.TrC.tryFinally, hm]
+    | raised x =>
+      by_cases hx : excIsA x "CancelledError" = true
+      · simp [ctorAPrims, ctorEndOf, M.bind, M.pure, getS, assertM, modifyS, tryExcept, Gen.TrC.tryFinally, raise, hm, hx]
+      · have hx' : excIsA x "CancelledError" = false := by simpa using hx
+        simp [ctorAPrims, ctorEndOf, M.bind, M.pure, getS, assertM, modifyS, tryExcept, Gen.TrC.tryFinally, raise, hm, hx']
+
+/-! #### consequences, stated outright -/
+
+/-- A main task (a service) that ENDS without being cancelled aborts the simulation – by returning
+    (EdzedCircuitError) or by raising an Exception (that exception) –; a cancelled one does not. -/
+theorem ctor_monitor_service_end_aborts_cancel_does_not (e : Exc) :
+    (monitor true .returned).aborted = some "EdzedCircuitError"
+    ∧ (excIsA e "Exception" = true → (monitor true (.raised e)).aborted = some e)
+    ∧ (monitor true (.raised "CancelledError")).aborted = none
+    ∧ (monitor false .returned).aborted = none := by
+  refine ⟨rfl, ?_, by decide, rfl⟩
+  intro h; simp [monitor, h]
+
+/-- `stop_async` cancels the main task and awaits it; the cancellation is not an error and the rest of the
+    clean-up chain runs; `_mtask` is cleared whatever happens; without `start` it is an assertion failure.
+    (The bound by `stop_timeout` is applied by the caller, `Circuit._run_tasks`, not here.) -/
+theorem ctor_stop_async_cancels_and_awaits (e : Exc) :
+    stopAsync true (.raised "CancelledError") = ⟨true, true, true, .ok ()⟩
+    ∧ stopAsync true .returned = ⟨true, true, true, .ok ()⟩
+    ∧ (excIsA e "CancelledError" = false → stopAsync true (.raised e) = ⟨true, true, false, .error e⟩)
+    ∧ (stopAsync false (.raised e)).result = .error "AssertionError" := by
+  refine ⟨by simp [stopAsync, excIsA], rfl, ?_, rfl⟩
+  intro h; simp [stopAsync, h]
+
+/-- Which `Event(...)` calls create a Repeat block: exactly those with `repeat` given (not None).  The created
+    block forwards to the ORIGINAL destination with the ORIGINAL event type, its interval is
+    `time_period(repeat)`, its count the `count` argument unchanged (None stays None – unlimited –, 0 stays 0);
+    the event itself keeps its type and is redirected to the new block. -/
+theorem ctor_event_with_repeat_creates_repeat (dest : Dest) (etype : ETy) (r : Val) (count : Option Int)
+    (filtersOk : Bool) (ec : EventCfg) (h : eventNew dest etype (some r) count filtersOk = .ok ec) :
+    ∃ iv, RepeatCtor.timePeriod r = .ok (some iv) ∧ 0 < iv
+      ∧ ec.dest = .repeatOf dest etype iv count ∧ ec.etype = etype := by
+  unfold eventNew at h
+  simp only at h
+  cases hr : repeatNew dest etype r count with
+  | error e => simp [hr] at h
+  | ok rc =>
+    simp only [hr] at h
+    cases ht : typecheck etype with
+    | error e => simp [ht] at h
+    | ok u =>
+      cases filtersOk <;> simp [ht] at h
+      obtain ⟨a, b, c⟩ := (translated_ctor_repeat_init_is_model dest etype r count).2 rc hr |>.2
+      unfold repeatNew at hr
+      cases hc : etype.isEventCond <;> simp [hc, ht] at hr
+      cases hp : RepeatCtor.timePeriod r with
+      | error e => simp [hp] at hr
+      | ok o =>
+        cases o with
+        | none => simp [hp] at hr
+        | some iv =>
+          by_cases hiv : iv ≤ 0
+          · simp [hp, hiv] at hr
+          · have hrc : rc.interval = iv := by
+              cases count with
+              | none => simp [hp, hiv] at hr; rw [← hr]
+              | some n => by_cases hn : n < 0 <;> simp [hp, hiv, hn] at hr; rw [← hr]
+            refine ⟨iv, rfl, Rat.not_le.mp hiv, ?_, by rw [← h]⟩
+            rw [← h, a, b, c, hrc]
+
+/-- without `repeat` no block is created: the event goes where it was sent; a `count` alone is refused -/
+theorem ctor_event_without_repeat (dest : Dest) (etype : ETy) (n : Int) (filtersOk : Bool) :
+    eventNew dest etype none (some n) filtersOk = .error "ValueError"
+    ∧ ∀ ec, eventNew dest etype none none filtersOk = .ok ec → ec = ⟨dest, etype⟩ := by
+  refine ⟨rfl, ?_⟩
+  intro ec h
+  unfold eventNew at h
+  cases ht : typecheck etype <;> cases filtersOk <;> simp [ht] at h
+  exact h.symm
+
+/-- the refused argument combinations of `Repeat(...)` / `Event(..., repeat=…)` -/
+theorem ctor_repeat_refused_arguments (dest : Dest) (etype : ETy) (interval : Val) (count : Option Int) (n : Int) (q : Rat)
+    (k : Kind) (t : Bool) :
+    repeatNew dest .eventCond interval count = .error "ValueError"
+    ∧ repeatNew dest (.str "") interval count = .error "ValueError"
+    ∧ repeatNew dest (.other t) interval count = .error "TypeError"
+    ∧ repeatNew dest (.str "put") Val.none count = .error "ValueError"
+    ∧ (q ≤ 0 → repeatNew dest (.str "put") (.atom (.num q k)) count = .error "ValueError")
+    ∧ (0 < q → n < 0 → repeatNew dest (.str "put") (.atom (.num q k)) (some n) = .error "ValueError")
+    ∧ (0 < q → 0 ≤ n → repeatNew dest (.str "put") (.atom (.num q k)) (some n) = .ok ⟨dest, .str "put", q, some n⟩)
+    ∧ (0 < q → repeatNew dest (.str "put") (.atom (.num q k)) none = .ok ⟨dest, .str "put", q, none⟩) := by
+  have hpos : ∀ {q : Rat}, 0 < q → ¬ q < 0 ∧ ¬ q ≤ 0 := fun h =>
+    ⟨Rat.not_lt.mpr (Rat.le_of_lt h), Rat.not_le.mpr h⟩
+  refine ⟨rfl, rfl, rfl, ?_, ?_, ?_, ?_, ?_⟩
+  · simp [repeatNew, ETy.isEventCond, typecheck, RepeatCtor.timePeriod, TimeUnits.timePeriod, Val.none]
+  · intro hq
+    by_cases h0 : q < 0
+    · simp [repeatNew, ETy.isEventCond, typecheck, RepeatCtor.timePeriod, TimeUnits.timePeriod, h0]
+    · simp [repeatNew, ETy.isEventCond, typecheck, RepeatCtor.timePeriod, TimeUnits.timePeriod, h0, hq]
+  · intro hq hn
+    simp [repeatNew, ETy.isEventCond, typecheck, RepeatCtor.timePeriod, TimeUnits.timePeriod, (hpos hq).1, (hpos hq).2, hn]
+  · intro hq hn
+    have : ¬ n < 0 := by omega
+    simp [repeatNew, ETy.isEventCond, typecheck, RepeatCtor.timePeriod, TimeUnits.timePeriod, (hpos hq).1, (hpos hq).2, this]
+  · intro hq
+    simp [repeatNew, ETy.isEventCond, typecheck, RepeatCtor.timePeriod, TimeUnits.timePeriod, (hpos hq).1, (hpos hq).2]
+
+/-- `stop_timeout` / `init_timeout`: missing or None means the default (10 s) when the block has the method;
+    a given value goes through `time_period`; given although the method is missing: TypeError -/
+theorem ctor_async_timeouts_default_and_refusal (kwargs : List (String × Val))
+    (h1 : hasKw kwargs "init_timeout" = false) (h2 : hasKw kwargs "stop_timeout" = false) :
+    (∃ t, asyncInit true true 10 10 kwargs = .ok t ∧ t.init = some 10 ∧ t.stop = some 10)
+    ∧ asyncInit false false 10 10 (("stop_timeout", Val.int 3) :: kwargs) = .error "TypeError" := by
+  have hf : ∀ (l : List (String × Val)) k, hasKw l k = false → (RepeatCtor.popKw l k).1 = Val.none := by
+    intro l k hk
+    have : l.find? (fun x => x.1 == k) = none := by
+      apply List.find?_eq_none.mpr
+      intro x hx hxk
+      have : hasKw l k = true := List.any_eq_true.mpr ⟨x, hx, hxk⟩
+      rw [hk] at this; cases this
+    simp [RepeatCtor.popKw, this]
+  have htp : RepeatCtor.timePeriod Val.none = .ok none := rfl
+  have hf2 : hasKw (popKw kwargs "init_timeout").2 "stop_timeout" = false := by
+    cases h : hasKw (popKw kwargs "init_timeout").2 "stop_timeout" with
+    | false => rfl
+    | true =>
+      obtain ⟨x, hx, hxk⟩ := List.any_eq_true.mp h
+      have : hasKw kwargs "stop_timeout" = true :=
+        List.any_eq_true.mpr ⟨x, (List.mem_filter.mp hx).1, hxk⟩
+      rw [h2] at this; cases this
+  constructor
+  · refine ⟨⟨some 10, some 10, (popKw (popKw kwargs "init_timeout").2 "stop_timeout").2⟩, ?_, rfl, rfl⟩
+    unfold asyncInit oneTimeout
+    simp only [if_true, hf _ _ h1, hf _ _ hf2, htp, withDefault]
+  · have h1' : (kwargs.any fun x => x.fst == "init_timeout") = false := h1
+    simp [asyncInit, oneTimeout, hasKw, h1']
+
+/-- non-vacuity: an event with `repeat=2.5, count=0` -/
+example : (eventNew (.block "out") (.str "put") (some (Val.flt (5 / 2))) (some 0) true).toOption =
+    some ⟨.repeatOf (.block "out") (.str "put") (5 / 2) (some 0), .str "put"⟩ := by decide +kernel
+
+end Edzed.TrTie
